@@ -43,13 +43,13 @@ pub proof fn lemma_C06_unparsable_change_keeps_index(o: FixtureDatabase, s: Fixt
 pub proof fn lemma_C06_identical_text_still_reanalyses(o: Backend, s: Backend, uri: Uri, changes: Seq<TextDocumentContentChangeEvent>)
     requires did_change_post(o, s, uri, changes), uri_path(uri) is Some, changes.len() > 0
     ensures s.fixture_db.version() != o.fixture_db.version(),
-        analyze_file_post(o.fixture_db, s.fixture_db, uri_path(uri)->0, changes[0].text@),
+        analyze_file_post(o.fixture_db, s.fixture_db, uri_path(uri)->0, changes.last().text@),
 {}
 //@tags C10
-/// full-document sync: only the FIRST content change of a notification is used: two notifications whose first changes
+/// full-document sync: the LAST content change of a notification is the one analysed: two notifications whose last changes
 /// carry the same text are indistinguishable, whatever follows; an empty change list changes nothing
-pub proof fn lemma_C10_only_first_change_is_used(o: Backend, s: Backend, uri: Uri, c1: Seq<TextDocumentContentChangeEvent>, c2: Seq<TextDocumentContentChangeEvent>)
-    requires did_change_post(o, s, uri, c1), c1.len() > 0, c2.len() > 0, c1[0].text@ == c2[0].text@
+pub proof fn lemma_C10_last_change_is_used(o: Backend, s: Backend, uri: Uri, c1: Seq<TextDocumentContentChangeEvent>, c2: Seq<TextDocumentContentChangeEvent>)
+    requires did_change_post(o, s, uri, c1), c1.len() > 0, c2.len() > 0, c1.last().text@ == c2.last().text@
     ensures did_change_post(o, s, uri, c2),
         did_change_post(o, o, uri, Seq::<TextDocumentContentChangeEvent>::empty()),
 {}
@@ -76,10 +76,10 @@ proof fn canary_change_with_same_text_is_noop(o: Backend, s: Backend, uri: Uri, 
     requires did_change_post(o, s, uri, changes), uri_path(uri) is Some, changes.len() > 0
     ensures s.fixture_db.version() == o.fixture_db.version()
 {}
-/// the LAST content change is the one analysed
-proof fn canary_last_change_is_used(o: Backend, s: Backend, uri: Uri, changes: Seq<TextDocumentContentChangeEvent>)
+/// the FIRST content change is the one analysed (FALSE since fix faeeb2a: the last one is)
+proof fn canary_first_change_is_used(o: Backend, s: Backend, uri: Uri, changes: Seq<TextDocumentContentChangeEvent>)
     requires did_change_post(o, s, uri, changes), uri_path(uri) is Some, changes.len() > 1
-    ensures analyze_file_post(o.fixture_db, s.fixture_db, uri_path(uri)->0, changes.last().text@)
+    ensures analyze_file_post(o.fixture_db, s.fixture_db, uri_path(uri)->0, changes[0].text@)
 {}
 /// an unparsable text wipes the file's entries
 proof fn canary_unparsable_change_clears_file(o: FixtureDatabase, s: FixtureDatabase, p: PV, text: Seq<char>, n: Seq<char>)
